@@ -57,7 +57,7 @@
               PROVED there: calculate_path / calculate_length never panic,
               for every libm, and hence no decode ever panics; the Bézier
               subdivision fuel suffices in IEEE arithmetic for n control
-              points within +-2^E when (n-1) * 2^E <= 2^19
+              points within +-2^E when n * 2^E <= 2^21
               ([C01_T01g_ieee_bounded]).  OPEN: the same for the remaining
               segments a file can contain (more control points, far from
               the origin) (T01g, partial by design; proved for reals and
@@ -664,20 +664,25 @@ Proof. exact (conj BezierIEEEFinite.seg_fin_dump BezierIEEEFinite.seg_fin_finite
      +-131072) ->
      exists r, Curve.approximate_bezier_L1 Curve.bezier_fuel path points tt = Done r.
    PROVED ([C01_T01g_ieee_bounded], below): the statement for every segment of
-   n control points with finite coordinates |x| <= 2^E and (n - 1) * 2^E <= 2^19
-   -- e.g. <= 1025 control points within +-512, <= 129 within +-4096, <= 5
-   within +-131072, <= 3 within +-262144.  The binary32 rounding of `(a + b) /
-   2.0` (at most u = 2^(E-24) + 2^-150 per midpoint, at most (n-1)u per child
-   control point) and of the flatness test `(prev - curr * 2.0 + next)
-   .length_squared() > 0.25` (false whenever both real second differences are
-   <= 5/16 and E <= 18) cannot stall the 1/4 contraction there: second
-   differences obey D' <= D/4 + 4(n-1)u, fixed point 16(n-1)u/3 <= 3/16.
-   REMAINS OPEN: segments with (n - 1) * 2^E > 2^19 inside the parser's range
-   (many control points far from the origin).  The worst-case error bound
-   (n-1)u grows linearly with n and exceeds the tolerance there, although
-   rounding errors do not actually accumulate that way; no such segment that
-   fails to return was found (probes/T01g_search: 18792 segments of 3..2000
-   control points around +-131072 / +-262144, every one returned).
+   n control points with finite coordinates |x| <= 2^E and n * 2^E <= 2^21
+   -- e.g. <= 4096 control points within +-512, <= 512 within +-4096, <= 16
+   within +-131072, <= 8 anywhere in the parser's range (+-262144 relative to
+   the slider).  The binary32 rounding of `(a + b) / 2.0` (at most u =
+   2^(E-24) + 2^-150 per midpoint) and of the flatness test `(prev - curr * 2.0
+   + next).length_squared() > 0.25` (false whenever both real second
+   differences are <= 9/32 and E <= 19) cannot stall the 1/4 contraction
+   there: the second differences along a row of the computed triangle grow
+   by at most 4u per level, those of a child are a quarter of a row's plus at
+   most 3u, so D' <= D/4 + n u, fixed point 4nu/3 <= 3/16.
+   ([C01_T01g_ieee_bounded_via_exact_child] is the first, weaker form, (n - 1)
+   * 2^E <= 2^19, obtained by comparing with the exact child.)
+   REMAINS OPEN: segments with n * 2^E > 2^21 inside the parser's range (many
+   control points far from the origin).  The worst-case bound n u is linear
+   in n and exceeds the tolerance there; the true growth is logarithmic in n
+   (the 4u increments have alternating signs that the next averaging step
+   cancels), not mechanised; no such segment that fails to return was found
+   (probes/T01g_search: 20952 segments of 3..2000 control points around
+   +-131072 / +-262144, every one returned).
    Some bound on finite coordinates is needed: from 2^22 on (spacing >= 1/2)
    there are FINITE segments on which the loop never returns
    ([C01_T01g_ieee_refuted_finite], [C01_T01g_ieee_refuted_finite_2p22],
@@ -717,7 +722,7 @@ Print Assumptions C01_T01g_ieee_equal_points_partial.
 (* T01g for the IEEE instance, bounded control points (binary32, through
    Flocq's correctness theorems for +, -, *, /, <).  [point_ok E p]: both
    coordinates of p are finite and of magnitude <= 2^E. *)
-From RM Require Proofs.BezierIEEE.
+From RM Require Proofs.BezierIEEE Proofs.BezierIEEETight.
 
 Example C01_T01g_point_ok_means :
   forall E p,
@@ -730,23 +735,35 @@ Proof. intros E p. split; intros H; exact H. Qed.
 
 Theorem C01_T01g_ieee_bounded :
   forall (E : Z) path points,
-  0 <= E -> Z.of_nat (length points - 1) * 2 ^ E <= 2 ^ 19 ->
+  0 <= E -> Z.of_nat (length points) * 2 ^ E <= 2 ^ 21 ->
   points <> [] -> Forall (BezierIEEE.point_ok E) points ->
   exists path', Curve.approximate_bezier_L1 Curve.bezier_fuel path points tt = Done (path', tt).
-Proof. exact BezierIEEE.T01g_ieee_bounded. Qed.
+Proof. exact BezierIEEETight.T01g_ieee_bounded_tight. Qed.
 Print Assumptions C01_T01g_ieee_bounded.
 
 (* ... with the depth: the subdivision tree below such a segment is flat at depth 19 *)
 Theorem C01_T01g_ieee_bounded_depth :
   forall (E : Z) points,
-  0 <= E -> Z.of_nat (length points - 1) * 2 ^ E <= 2 ^ 19 ->
+  0 <= E -> Z.of_nat (length points) * 2 ^ E <= 2 ^ 21 ->
   points <> [] -> Forall (BezierIEEE.point_ok E) points ->
   BezierTermination.within32 19 points.
-Proof. exact BezierIEEE.within32_bounded. Qed.
+Proof. exact BezierIEEETight.within32_bounded_tight. Qed.
 Print Assumptions C01_T01g_ieee_bounded_depth.
 
+(* the first form (through the exact child: each child control point is within
+   (n-1)u of the exact child's, D' <= D/4 + 4(n-1)u); it also covers a single
+   control point of any finite magnitude *)
+Theorem C01_T01g_ieee_bounded_via_exact_child :
+  forall (E : Z) path points,
+  0 <= E -> Z.of_nat (length points - 1) * 2 ^ E <= 2 ^ 19 ->
+  points <> [] -> Forall (BezierIEEE.point_ok E) points ->
+  exists path', Curve.approximate_bezier_L1 Curve.bezier_fuel path points tt = Done (path', tt).
+Proof. exact BezierIEEE.T01g_ieee_bounded. Qed.
+Print Assumptions C01_T01g_ieee_bounded_via_exact_child.
+
 (* the pieces: one computed midpoint; the children of a covered segment whose
-   real second differences are bounded by D; the flatness test *)
+   real second differences are bounded by D ([Inv E D]: covered coordinates,
+   second differences of either coordinate list at most D); the flatness test *)
 Theorem C01_T01g_ieee_midpoint :
   forall E a b, 0 <= E <= 126 ->
   BezierIEEE.coord_ok E a -> BezierIEEE.coord_ok E b ->
@@ -757,46 +774,47 @@ Print Assumptions C01_T01g_ieee_midpoint.
 
 Theorem C01_T01g_ieee_contraction :
   forall E D pts, 0 <= E <= 126 -> (0 <= D)%R -> BezierIEEE.Inv E D pts ->
-  let D' := (D / 4 + 4 * (INR (Nat.pred (length pts)) * BezierIEEE.uE E))%R in
+  let D' := (D / 4 + INR (length pts) * BezierIEEE.uE E)%R in
   BezierIEEE.Inv E D' (fst (BezierTermination.sub32 pts)) /\
   BezierIEEE.Inv E D' (snd (BezierTermination.sub32 pts)).
-Proof. exact BezierIEEE.contraction_ok. Qed.
+Proof. exact BezierIEEETight.contraction_tight_ok. Qed.
 Print Assumptions C01_T01g_ieee_contraction.
 
 Theorem C01_T01g_ieee_flat_test :
-  forall E D pts, 0 <= E <= 18 -> BezierIEEE.Inv E D pts -> (D <= 5 / 16)%R ->
+  forall E D pts, 0 <= E <= 100 -> BezierIEEE.Inv E D pts ->
+  (D + Flocq.Core.Raux.bpow Flocq.Core.Zaux.radix2 (E - 23) <= 11 / 32)%R ->
   Curve.flat_enough pts = true.
-Proof. exact BezierIEEE.flat_test_ok. Qed.
+Proof. exact BezierIEEETight.flat_test_gen_ok. Qed.
 Print Assumptions C01_T01g_ieee_flat_test.
 
 (* not vacuous: what the line
    `0,0,0,2,0,B|131072:-131072|-131072:131072|131072:131072,1,100` decodes to --
-   four control points within +-2^17 (3 * 2^17 <= 2^19), far from flat *)
+   four control points within +-2^17 (4 * 2^17 <= 2^21), far from flat *)
 Example C01_T01g_ieee_bounded_example :
   map Curve.dump_pos BezierIEEE.ex_seg
     = [[0; 0]; [1207959552; 3355443200]; [3355443200; 1207959552]; [1207959552; 1207959552]] /\
   Curve.flat_enough BezierIEEE.ex_seg = false /\
   Forall (BezierIEEE.point_ok 17) BezierIEEE.ex_seg /\
-  Z.of_nat (length BezierIEEE.ex_seg - 1) * 2 ^ 17 <= 2 ^ 19 /\
+  Z.of_nat (length BezierIEEE.ex_seg) * 2 ^ 17 <= 2 ^ 21 /\
   (forall path, exists path',
      Curve.approximate_bezier_L1 Curve.bezier_fuel path BezierIEEE.ex_seg tt = Done (path', tt)).
 Proof.
   split; [exact BezierIEEE.ex_seg_dump|]. split; [exact BezierIEEE.ex_seg_not_flat|].
   split; [exact BezierIEEE.ex_seg_ok|]. split; [vm_compute; discriminate|].
-  exact BezierIEEE.ex_seg_terminates.
+  exact BezierIEEETight.ex_seg_terminates_tight.
 Qed.
 
 (* hence Curve::new / BorrowedCurve::new (pure level) return a value for every
-   slider of n control points within +-2^E with (n - 1) * 2^E <= 2^19, any
-   segment kinds, mode and requested length, for every libm whose atan2 has its
-   values in [-PI, PI]: calculate_path hands contiguous slices of the control
-   points to the Bezier routine, and a slice of covered points is covered *)
+   slider of n control points within +-2^E with n * 2^E <= 2^21, any segment
+   kinds, mode and requested length, for every libm whose atan2 has its values
+   in [-PI, PI]: calculate_path hands contiguous slices of the control points
+   to the Bezier routine, and a slice of covered points is covered *)
 From RM Require Proofs.BezierIEEECurve.
 
 Theorem C01_T01g_curve_bounded :
   forall lm mode pts e (E : Z),
   ThetaLoop.atan2_in_range lm -> 0 <= E ->
-  Z.of_nat (length pts - 1) * 2 ^ E <= 2 ^ 19 ->
+  Z.of_nat (length pts) * 2 ^ E <= 2 ^ 21 ->
   Forall (fun p => BezierIEEE.point_ok E (Curve.pc_pos p)) pts ->
   exists c, Curve.curve_L1 lm Curve.bezier_fuel mode pts e = Done c.
 Proof. exact BezierIEEECurve.curve_L1_bounded. Qed.
